@@ -20,6 +20,7 @@ import (
 	"fmt"
 	"io"
 	"io/ioutil"
+	"log"
 	"math/rand"
 	"os"
 	"path/filepath"
@@ -32,6 +33,7 @@ import (
 	"github.com/youzan/ZanRedisDB/engine"
 	"github.com/youzan/ZanRedisDB/node"
 	"github.com/youzan/ZanRedisDB/rockredis"
+	"github.com/youzan/ZanRedisDB/slow"
 	"zrverif/graph"
 	"zrverif/trace"
 )
@@ -41,6 +43,12 @@ func init() { commands["ckptsim"] = ckptsim }
 const ckBaseTs = int64(1600000000) * 1e9 // log time of entry 0 (2020); expiries lie >= 20 years later
 
 var ckKeys = []string{"t:a", "t:b", "u:c"}
+var ckCntKeys = []string{"t:n1", "u:n2"} // counters (kv keyspace only)
+// HyperLogLog keys live in the kv keyspace too, but their writes sit in rockredis' HLL write
+// cache until it is flushed (Backup, close); they are only read through PFCOUNT, which looks
+// into the cache.  (A plain GET of such a key and the table key counter change at flush time;
+// both are left to the raw engine digest taken after the flush.)
+var ckHllKeys = []string{"t:h1", "u:h2"}
 
 type ckName struct{ t, i uint64 }
 
@@ -173,12 +181,14 @@ func ckLogical(kv *node.KVStore) string {
 			z = append(z, fmt.Sprintf("%s:%v", x.Member, x.Score))
 		}
 		out = append(out, fmt.Sprintf("zset %s %v %v %s", k, z, err, flag01(kv.ZSetTtl(key))))
-		c, err := kv.PFCount(ckBaseTs, key)
+	}
+	for _, k := range ckHllKeys {
+		c, err := kv.PFCount(ckBaseTs, []byte(k))
 		out = append(out, fmt.Sprintf("hll %s %d %v", k, c, err))
 	}
-	for _, t := range []string{"t", "u"} {
-		c, err := kv.GetTableKeyCount([]byte(t))
-		out = append(out, fmt.Sprintf("tablecount %s %d %v", t, c, err))
+	for _, k := range ckCntKeys {
+		v, err := kv.KVGet([]byte(k))
+		out = append(out, fmt.Sprintf("counter %s=%q %v %s", k, v, err, flag01(kv.KVTtl([]byte(k)))))
 	}
 	return strings.Join(out, "\n")
 }
@@ -249,7 +259,7 @@ func (d *ckDrv) ls(s *ckStore) {
 // applyOp executes log entry `id` on the store.  The operation, its arguments and its log
 // timestamp are a function of (seed, id) only, so a replayed entry is the same entry.
 func (d *ckDrv) applyOp(kv *node.KVStore, id int) (string, string) {
-	r := rand.New(rand.NewSource(d.seed*7919 + int64(id)*104729))
+	r := rand.New(rand.NewSource(ckMix(d.seed, int64(id))))
 	ts := ckBaseTs + int64(id)*1000000
 	key := []byte(ckKeys[r.Intn(len(ckKeys))])
 	arg := func(p string) []byte { return []byte(p + strconv.Itoa(r.Intn(6))) }
@@ -262,10 +272,11 @@ func (d *ckDrv) applyOp(kv *node.KVStore, id int) (string, string) {
 		err = kv.KVSet(ts, key, []byte("v"+strconv.Itoa(id)))
 	case 2, 3, 4:
 		desc = "incr"
-		_, err = kv.Incr(ts, []byte("t:cnt"+strconv.Itoa(r.Intn(2))))
-		if err != nil {
-			// the key may hold a non-integer; count on a dedicated key instead
-			_, err = kv.IncrBy(ts, []byte("u:n"), 3)
+		key = []byte(ckCntKeys[r.Intn(len(ckCntKeys))])
+		if r.Intn(3) == 0 {
+			_, err = kv.IncrBy(ts, key, int64(2+r.Intn(5)))
+		} else {
+			_, err = kv.Incr(ts, key)
 		}
 	case 5:
 		desc = "append"
@@ -320,6 +331,7 @@ func (d *ckDrv) applyOp(kv *node.KVStore, id int) (string, string) {
 		_, err = kv.ZRem(ts, key, arg("z"))
 	case 26, 27:
 		desc = "pfadd"
+		key = []byte(ckHllKeys[r.Intn(len(ckHllKeys))])
 		_, err = kv.PFAdd(ts, key, []byte("p"+strconv.Itoa(id)), []byte("q"+strconv.Itoa(r.Intn(40))))
 	case 28:
 		desc = "persist"
@@ -380,7 +392,13 @@ func (d *ckDrv) bbegin(s *ckStore) bool {
 		return false
 	}
 	name := ckName{s.term, uint64(len(s.log))}
+	if os.Getenv("CK_DEBUG") != "" {
+		fmt.Fprintln(os.Stderr, "BEFORE BACKUP\n"+ckLogical(s.kv))
+	}
 	bi := s.kv.Backup(name.t, name.i)
+	if os.Getenv("CK_DEBUG") != "" {
+		fmt.Fprintln(os.Stderr, "AFTER BACKUP\n"+ckLogical(s.kv))
+	}
 	// the apply loop is blocked here; Backup has flushed the HLL cache synchronously
 	d.tw.Emit(trace.M{"ev": "bbegin", "s": s.id, "t": name.t, "i": name.i, "ok": bi != nil,
 		"dump": d.dump(s), "raw": ckRaw(s.kv)})
@@ -747,6 +765,14 @@ func ckptsim(args []string) error {
 	keep := fs.Int("keep", 2, "KeepBackup of the stores (checkpoints kept by the purge)")
 	fs.Parse(args)
 
+	log.SetOutput(ioutil.Discard) // common.RunFileSync prints through the standard logger
+	// the memory engine prints every checkpoint to stdout; keep stdout for the SUMMARY line
+	realOut := os.Stdout
+	if devnull, err := os.OpenFile(os.DevNull, os.O_WRONLY, 0); err == nil {
+		os.Stdout = devnull
+		defer func() { os.Stdout = realOut }()
+	}
+	slow.SetLogger(0, common.NewLogger())
 	engine.SetLogLevel(0)
 	rockredis.SetLogLevel(0)
 	node.SetLogLevel(0)
@@ -814,6 +840,7 @@ func ckptsim(args []string) error {
 		n += tw.N
 		tw.Close()
 	}
+	os.Stdout = realOut
 	summary(map[string]interface{}{"driver": "ckptsim", "engine": *et, "seed": *seed, "segments": seg,
 		"sim_behaviours": nsim, "random_histories": *nrand, "events": n, "counts": d.cnt, "sample_dump": d.sample})
 	return nil
